@@ -12,7 +12,7 @@ READY = True
 LEVEL = "exploration"
 WORKERS = {"quick": 4, "thorough": 16}
 BUDGET = {"quick": 60, "thorough": 300}
-MIN_NONTRIVIAL = {"quick": 600, "thorough": 8000}
+MIN_NONTRIVIAL = {"quick": 600, "thorough": 4000}
 REQUIRED_HOOKS = ["evaluate:I", "evaluate:C", "host-call", "override-isolation", "unbound"]
 RULE = (
     "The host functions are recording proxies (name, received argument values with their classes). Product of call shape (f(a..), a.f(..), 0-3 arguments, "
